@@ -883,6 +883,9 @@ func (vm *VirtualMachine) callFunction(
 
 	// Evaluate the function code then return the result from TOS
 	if err := vm.eval(ctx); err != nil {
+		// A failed call has no result: discard what it left on the stack so
+		// that resumeFrame does not keep the top item as one.
+		vm.discardAbove(baseSP)
 		return nil, err
 	}
 	return vm.pop(), nil
@@ -926,6 +929,14 @@ func (vm *VirtualMachine) callObject(
 		return vm.callObject(ctx, fn.Function(), newArgs)
 	default:
 		return errz.TypeErrorf("type error: object is not callable (got %s)", fn.Type())
+	}
+}
+
+// discardAbove removes every item above the given stack position.
+func (vm *VirtualMachine) discardAbove(sp int) {
+	for vm.sp > sp {
+		vm.stack[vm.sp] = nil
+		vm.sp--
 	}
 }
 
@@ -1034,6 +1045,7 @@ func (vm *VirtualMachine) importModule(ctx context.Context, name string) (*objec
 	defer vm.resumeFrame(baseFP, baseIP, baseSP)
 	// Evaluate the module code
 	if err := vm.eval(ctx); err != nil {
+		vm.discardAbove(baseSP)
 		return nil, err
 	}
 	module.UseGlobals(code.Globals)
